@@ -290,7 +290,8 @@ class Executor(ExprMixin, CallMixin):
 
     def is_logger_call(self, e) -> bool:
         return (isinstance(e, ast.Call) and isinstance(e.func, ast.Attribute)
-                and isinstance(e.func.value, ast.Name) and e.func.value.id in ("logger", "logging", "log"))
+                and isinstance(e.func.value, ast.Name) and e.func.value.id in ("logger", "logging", "log")
+                and e.func.attr in ("debug", "info", "warning", "warn", "error", "exception", "critical", "log"))
 
     def s_Assign(self, s, st):
         outs = []
